@@ -55,4 +55,7 @@ SPECS = {
  'ext2mul': {'src': src('ext2mul'), 'never_fails': True,
     'post': ['r[0].val() == fsub(fmul(fadd(s0[1].val(), s0[0].val()), fadd(s0[2].val(), s0[3].val())), fmul(s0[1].val(), s0[3].val()))',
              'r[1].val() == fsub(fmul(s0[1].val(), s0[3].val()), fmul(fmul(2, s0[0].val()), s0[2].val()))', 'rest_ok(s0, r, 4, 2)']},
+ # ---- powers -------------------------------------------------------------------------------------
+ 'pow2': {'src': src('pow2'), 'post': ['r[0].val() == p2(%s)' % a0, 'rest_ok(s0, r, 1, 1)'], 'fails': '%s > 63' % a0,
+    'hints': ['if s0[0].val() <= 63 { lemma_p2_bits(s0[0].val()); }']},
 }
